@@ -198,10 +198,10 @@ def onCommit (core : Core) (screen : Option Img) (a : App) : App × List Act :=
     | .plain => (a, [])
     | .capture f box =>
       match screen with
-      | none =>                                       -- `assert self.screen is not None`
-        match a.chain with
-        | .waitCommit => ({ a with chain := .failed "assert" }, [.chainFailed "assert"])
-        | _ => (a, [])
+      | none =>
+        -- the completed update carried no pixel data (only a cursor shape, say): nothing to save yet;
+        -- `_captureSave` waits for the next update (`refreshScreen()`: a full, non-incremental request)
+        ({ a with waiter := some (.capture f box) }, requestAll core false)
       | some s =>
         let img := match box with
           | none => s
